@@ -9,6 +9,8 @@ import GoPipeline.Driver.C16
 import GoPipeline.Driver.C04
 import GoPipeline.Driver.C10
 import GoPipeline.Driver.Sig
+import GoPipeline.Driver.C07
+import GoPipeline.Driver.Parse
 open GoPipeline
 
 /-- Generic stateful line loop. -/
@@ -41,6 +43,8 @@ def main (args : List String) : IO UInt32 := do
   | ["c04"] => loop DriverC04.step inp out ()
   | ["c10"] => loop DriverC10.step inp out ()
   | ["sig"] => loop DriverSig.step inp out ()
+  | ["c07"] => loop DriverC07.step inp out ()
+  | ["parse"] => loop DriverParse.step inp out ()
   | _ => do IO.eprintln "usage: driver <mode>"; return 2
   out.flush
   return 0
